@@ -396,6 +396,11 @@ def run(ctx):
     ctx.guarded('C05-D3', 'package@flag', d3_flag, ctx)
     ctx.rule('C05-D4', 'samples are fluctuation + replica mean of the same object and chain')
     ctx.guarded('C05-D4', 'obs.py@samples', d4_samples, ctx)
+    from .. import unusedparams
+    ctx.rule('C05-D5', 'every accepted option is read (no silently ignored parameter)')
+    for mn_ in ('obs', 'correlators'):
+        ctx.guarded('C05-D5', mn_ + '@parameters', unusedparams.check, ctx, 'C05-D5', ctx.repo.mod(mn_))
+
 
 
 SELFTEST = [
